@@ -12,7 +12,7 @@ CONSTANTS
   ByteMod = 4
   StartSet <- MC_StartSmall
   TickTargets <- MC_Ticks
-  MaxOps = 11
+  MaxOps = 10
   Dev = "none"
 INVARIANTS Distinct Increasing BelowServer ReservedFresh ExtraInByte
 SYMMETRY PermsC
